@@ -127,6 +127,8 @@ func C11Scenarios(tier string) []*h.Scenario {
 			// a hand-made escalator taint that is not a time on the oldest untainted nodes (dry mode tracks
 			// taints itself and must leave the real one alone), and an instance that never joins the cluster
 			// (the cloud target runs ahead of the registered nodes)
+			// the operator parks the cloud group (maximum 0) or lowers its maximum below the node count
+			ev = append(ev, evASGEdit(gg.ASG.Name, 0, 0), evASGEdit(gg.ASG.Name, 1, 3))
 			// a burst large enough for a (simulated) cloud scale-up in one step
 			ev = append(ev, evBurst(gg, 7, 1000))
 			ev = append(ev, evExtTaint(names[1], "abc"), evExtTaint(names[2], "abc"),
